@@ -33,12 +33,13 @@ def generate(r, in_fn, allow_exempt=False):
     expect = []
     stats = {"exempted": 0, "observations": 0, "grown": 0}
     holder = []
+    big_keys = []
     map_keys = []
     boxed = [None]
     captured = [None]
     in_tuple = [None]
     observers = []   # (index, obj)
-    body = ["let H = [];", "let M = {};", "let B = Box(nil);"]
+    body = ["let H = [];", "let M = {};", "let B = Box(nil);", "let BIG = {};", "for i in 150.times() { BIG[i] = i; }"]
 
     def literal(o):
         return "[" + ", ".join(str(x) for x in o.items) + "]"
@@ -109,7 +110,7 @@ def generate(r, in_fn, allow_exempt=False):
     for _ in range(r.randint(6, 30)):
         act = r.choice(["new", "alias", "hold", "key", "box", "mut", "mut", "mut", "mut", "eq", "eq", "hhas", "mhas", "len",
                         "boxeq", "capture", "tuple", "observer", "fobs", "fobs", "fmut", "viaholder", "viabox", "growcall",
-                        "growcall"])
+                        "growcall", "bigkey", "itermut", "itermut"])
         names = list(variables)
         a = r.choice(names)
         o = variables[a]
@@ -143,6 +144,37 @@ def generate(r, in_fn, allow_exempt=False):
             text = mutate_list(a, o)
             if text:
                 body.append(text)
+        elif act == "bigkey":
+            # any value works as a key, also in a map that has grown to a few hundred entries: equal numbers (0 and -0,
+            # 2 and 2.0) find the same entry, objects find theirs
+            probe = r.choice([("0 * -1", "0"), ("-0", "0"), ("2.0", "2"), ("149", "149"), ("7.5", None), ("-1", None), ("150", None)])
+            body.append("print(BIG.has(%s), BIG.get(%s));" % (probe[0], probe[0]))
+            expect.append("true %s" % probe[1] if probe[1] is not None else "false nil")
+            stats["observations"] += 1
+            if o.kind != "list" or not o.grown or allow_exempt:
+                if o not in big_keys:
+                    body.append("BIG[%s] = %d;" % (a, 1000 + o.id))
+                    big_keys.append(o)
+                body.append("print(BIG.has(%s), BIG[%s]);" % (a, a))
+                expect.append("true %d" % (1000 + o.id))
+                stats["observations"] += 1
+        elif act == "itermut" and o.kind == "list" and 2 <= len(o.items) <= 6:
+            # a live iterator is one more alias: a mutation made through another alias while the loop runs is visible to it.
+            # The first element has been read when the body mutates: it appends one element and replaces the last old one
+            # (index >= 1), so the loop must see exactly the final contents
+            x, y = r.randint(100, 199), r.randint(200, 299)
+            body.append("if true { let seen = []; for v in %s { if seen.len() == 0 { %s.push(%d); %s[%d] = %d; } seen.push(v); } print(seen); }" % (
+                a, a, x, a, len(o.items) - 1, y))
+            o.items[len(o.items) - 1] = y
+            o.items.append(x)
+            if len(o.items) > o.cap:
+                if not o.grown:
+                    stats["grown"] += 1
+                o.grown = True
+                while o.cap < len(o.items):
+                    o.cap *= 2
+            expect.append("[%s]" % ", ".join(str(v) for v in o.items))
+            stats["observations"] += 1
         elif act == "growcall" and o.kind == "list":
             # the mutation happens in a callee frame while this frame keeps its aliases; the list comes back as a new alias
             x = r.randint(10, 99)
